@@ -209,7 +209,10 @@ class TileManager(object):
 
             for created_tile in created_tiles:
                 if created_tile.coord in tiles:
-                    tiles[created_tile.coord].source = created_tile.source
+                    tile = tiles[created_tile.coord]
+                    tile.source = created_tile.source
+                    # cacheable flag, timestamp and size belong to the new source
+                    tile.cacheable = created_tile.cacheable
 
         return tiles
 
